@@ -257,6 +257,22 @@ def shard_detect(shard, seed, n):
     return run
 
 
+def difference_shaped_atoms():
+    """Every relation L ~ R over a small grammar of sums and differences of up to four symbols and constants (both
+    arithmetic sorts): the shapes around the border of difference logic."""
+    for T in (INT, REAL):
+        x, y, z, w = [("SYMBOL", ("dl%s_%s" % (n, "i" if T == INT else "r"), T), ()) for n in "xyzw"]
+        k0, k1, k2, km = [("CONST", (T, v), ()) for v in (0, 1, 2, -1)]
+        sides = [x, k0, k1, ("MINUS", (), (x, y)), ("MINUS", (), (y, x)), ("MINUS", (), (z, w)), ("MINUS", (), (y, z)),
+                 ("PLUS", (), (x, k1)), ("PLUS", (), (("MINUS", (), (x, y)), k2)), ("PLUS", (), (x, y)),
+                 ("MINUS", (), (("MINUS", (), (x, y)), z)), ("TIMES", (), (k2, x)), ("TIMES", (), (km, y)),
+                 ("MINUS", (), (x, x)), ("PLUS", (), (z, ("TIMES", (), (km, w)))), ("MINUS", (), (k1, x)), z]
+        for op in ("LE", "LT", "EQUALS"):
+            for l in sides:
+                for r in sides:
+                    yield (op, (), (l, r))
+
+
 def shard_detect_enum(shard, nshards, stride, offset):
     """Bounded-exhaustive: detection on every one- / two-operator term and connective / quantifier combination."""
     from vf import enumterms
@@ -270,6 +286,10 @@ def shard_detect_enum(shard, nshards, stride, offset):
         if idx > 9000 and (idx // nshards) % stride != offset % stride:
             continue
         check_detection(run, t)
+    for idx, t in enumerate(difference_shaped_atoms()):
+        if idx % nshards == shard:
+            check_detection(run, t)
+            run.cls("difference-shaped-atom")
         run.cls("enumerated-term")
     return run
 
